@@ -18,6 +18,13 @@ static long destroyed[256]; static int ndestroyed;
 static void dtor(void *elt, void *cb) { (void)cb; if( ndestroyed < 256 ) destroyed[ndestroyed++] = (long)(uintptr_t)elt; }
 static void *ctor(void *obj, void *cb) { (void)obj; return cb; }
 
+/* synchronisation footprint: the kinds of the atomic primitives executed by one API call (hook H1) */
+extern void (*parsec_verif_yield_cb)(int kind, volatile void *addr);
+static char fp[64]; static int nfp;
+static void fp_cb(int kind, volatile void *addr) { (void)addr; if( nfp < 62 ) fp[nfp++] = "FCRS"[kind & 3]; }
+static void fp_begin(void) { nfp = 0; parsec_verif_yield_cb = fp_cb; }
+static const char *fp_end(void) { parsec_verif_yield_cb = NULL; fp[nfp] = 0; return fp; }
+
 static int registered(int iid)
 {
     parsec_list_item_t *it;
@@ -86,6 +93,7 @@ static int stress(int workers, int rounds, int grow)
 int main(int argc, char **argv)
 {
     char line[512], name[256];
+    { parsec_list_item_t warm; PARSEC_OBJ_CONSTRUCT(&warm, parsec_list_item_t); PARSEC_OBJ_DESTRUCT(&warm); }  /* class init takes a lock once */
     if( argc >= 5 && 0 == strcmp(argv[1], "stress") ) { stress(atoi(argv[2]), atoi(argv[3]), atoi(argv[4])); return 0; }
     reset();
     while( fgets(line, sizeof line, stdin) ) {
@@ -95,30 +103,35 @@ int main(int argc, char **argv)
         printf("%s => ", line);
         if( sscanf(line, "case %d", &a) == 1 ) { reset(); printf("ok\n"); }
         else if( sscanf(line, "reg %255s %d %d %ld", name, &c, &d, &v) == 4 ) {
-            printf("%d\n", parsec_info_register(nfo, name, d ? dtor : NULL, NULL, c ? ctor : NULL, (void*)(uintptr_t)v, NULL));
+            fp_begin(); int r = parsec_info_register(nfo, name, d ? dtor : NULL, NULL, c ? ctor : NULL, (void*)(uintptr_t)v, NULL);
+            printf("%d @%s\n", r, fp_end());
         } else if( sscanf(line, "unreg %d", &iid) == 1 ) {
             ndestroyed = 0;
-            int r = parsec_info_unregister(nfo, iid, NULL);
+            fp_begin(); int r = parsec_info_unregister(nfo, iid, NULL); const char *f = fp_end();
             printf("%d [", r);
             for(int i = 0; i < ndestroyed; i++) printf("%s%ld", i ? " " : "", destroyed[i]);
-            printf("]\n");
+            printf("] @%s\n", f);
         } else if( sscanf(line, "lookup %255s", name) == 1 ) {
-            printf("%d\n", parsec_info_lookup(nfo, name, NULL));
+            fp_begin(); int r = parsec_info_lookup(nfo, name, NULL);
+            printf("%d @%s\n", r, fp_end());
         } else if( 0 == strcmp(line, "oanew") ) {
             if( noa >= MAXOA ) { printf("rejected\n"); continue; }
             oas[noa] = PARSEC_OBJ_NEW(parsec_info_object_array_t);
-            parsec_info_object_array_init(oas[noa], nfo, NULL);
-            printf("%d\n", noa++);
+            fp_begin(); parsec_info_object_array_init(oas[noa], nfo, NULL);
+            printf("%d @%s\n", noa++, fp_end());
         } else if( sscanf(line, "set %d %d %ld", &a, &iid, &v) == 3 ) {
             if( a < 0 || a >= noa || iid < 0 || iid > nfo->max_id ) { printf("rejected\n"); continue; }
-            printf("%ld\n", (long)(uintptr_t)parsec_info_set(oas[a], iid, (void*)(uintptr_t)v));
+            fp_begin(); long r = (long)(uintptr_t)parsec_info_set(oas[a], iid, (void*)(uintptr_t)v);
+            printf("%ld @%s\n", r, fp_end());
         } else if( sscanf(line, "get %d %d", &a, &iid) == 2 ) {
             if( a < 0 || a >= noa || iid < 0 || iid > nfo->max_id || !registered(iid) ) { printf("rejected\n"); continue; }
             ndestroyed = 0;
-            printf("%ld\n", (long)(uintptr_t)parsec_info_get(oas[a], iid));
+            fp_begin(); long r = (long)(uintptr_t)parsec_info_get(oas[a], iid);
+            printf("%ld @%s\n", r, fp_end());
         } else if( sscanf(line, "tas %d %d %ld %ld", &a, &iid, &v, &w) == 4 ) {
             if( a < 0 || a >= noa || iid < 0 || iid > nfo->max_id ) { printf("rejected\n"); continue; }
-            printf("%ld\n", (long)(uintptr_t)parsec_info_test_and_set(oas[a], iid, (void*)(uintptr_t)v, (void*)(uintptr_t)w));
+            fp_begin(); long r = (long)(uintptr_t)parsec_info_test_and_set(oas[a], iid, (void*)(uintptr_t)v, (void*)(uintptr_t)w);
+            printf("%ld @%s\n", r, fp_end());
         } else if( 0 == strcmp(line, "maxid") ) {
             printf("%d\n", nfo->max_id);
         } else printf("bad-op\n");
